@@ -40,6 +40,10 @@ trait Elem: 'static + Sized {
     fn id(&self) -> Option<usize> {
         None
     }
+    /// value of a clone of an element whose value is `v` (identity unless Clone is not a bitwise copy)
+    fn cloned_val(v: u64) -> u64 {
+        v
+    }
     /// extra per-step accounting for element types that count themselves (zero-sized with Drop)
     fn live_check(_in_vec: usize) -> Result<(), String> {
         Ok(())
@@ -87,6 +91,32 @@ impl Elem for u64 {
     }
     fn dup(&self) -> Self {
         *self
+    }
+}
+/// plain data without a destructor whose `Clone` is NOT a bitwise copy (it bumps a generation): a vector clone has
+/// to go through `T::clone` for every element
+struct Gen {
+    v: u64,
+    gen: u64,
+}
+impl Clone for Gen {
+    fn clone(&self) -> Self {
+        Gen { v: self.v, gen: self.gen + 1 }
+    }
+}
+impl Elem for Gen {
+    const NAME: &'static str = "clone_generation";
+    fn make(v: u64) -> Self {
+        Gen { v, gen: 0 }
+    }
+    fn val(&self) -> u64 {
+        self.v + 1_000_000 * self.gen
+    }
+    fn dup(&self) -> Self {
+        Gen { v: self.v, gen: self.gen }
+    }
+    fn cloned_val(v: u64) -> u64 {
+        v + 1_000_000
     }
 }
 /// zero-sized element: all values are equal, only counts matter
@@ -370,6 +400,10 @@ impl<E: Elem + Clone> Sut<E> {
                     }
                     install(&mut cl)?;
                     *cv = Some(cl);
+                    // the clone holds clones of the elements
+                    for x in model.as_mut().unwrap().iter_mut() {
+                        *x = E::cloned_val(*x);
+                    }
                     may_realloc_without_reserve = true;
                 }
                 Op::Write(i) => {
@@ -521,7 +555,7 @@ fn section_with<E: Elem + Clone>(name: &'static str, class: usize) -> Section {
 fn main() {
     quiet_panics();
     let mut sections = vec![section::<u64>("u64"), section::<u8>("u8"), section::<Z>("zst"), section::<Dc>("dropcounter"), section::<DcZst>("zst_drop"), section::<Fat>("fat_heap"),
-        section_with::<u64>("u64_inplace", CLASS), section_with::<Dc>("dropcounter_inplace", CLASS), section_with::<Fat>("fat_heap_inplace", CLASS)];
+        section::<Gen>("clone_generation"), section_with::<u64>("u64_inplace", CLASS), section_with::<Dc>("dropcounter_inplace", CLASS), section_with::<Fat>("fat_heap_inplace", CLASS)];
     // the *_bfs sections replay through the same function
     let extra: Vec<Section> = vec![
         Section { name: "u64_bfs", explore: Box::new(|_| {}), replay: Box::new(|c| replay_with::<u64>(c, 6, 0)) },
@@ -530,6 +564,7 @@ fn main() {
         Section { name: "dropcounter_bfs", explore: Box::new(|_| {}), replay: Box::new(|c| replay_with::<Dc>(c, 6, 0)) },
         Section { name: "zst_drop_bfs", explore: Box::new(|_| {}), replay: Box::new(|c| replay_with::<DcZst>(c, 6, 0)) },
         Section { name: "fat_heap_bfs", explore: Box::new(|_| {}), replay: Box::new(|c| replay_with::<Fat>(c, 6, 0)) },
+        Section { name: "clone_generation_bfs", explore: Box::new(|_| {}), replay: Box::new(|c| replay_with::<Gen>(c, 6, 0)) },
         Section { name: "u64_inplace_bfs", explore: Box::new(|_| {}), replay: Box::new(|c| replay_with::<u64>(c, 6, CLASS)) },
         Section { name: "dropcounter_inplace_bfs", explore: Box::new(|_| {}), replay: Box::new(|c| replay_with::<Dc>(c, 6, CLASS)) },
         Section { name: "fat_heap_inplace_bfs", explore: Box::new(|_| {}), replay: Box::new(|c| replay_with::<Fat>(c, 6, CLASS)) },
